@@ -8,5 +8,7 @@ for f in spec/*.tla; do
   out=$(cd spec && java -cp /opt/veriftools/tla/tla2tools.jar:/opt/veriftools/tla/CommunityModules-deps.jar tla2sany.SANY "$m.tla" 2>&1)
   if echo "$out" | grep -q "\*\*\* Errors\|Fatal\|Could not"; then echo "SANY FAILED: $m"; echo "$out" | tail -20; rc=1; fi
 done
-PYTHONPATH=/verif /venv/bin/python -c "import harness.synth, harness.tlc, harness.report; print('harness imports ok')" || rc=1
+PYTHONPATH="$(pwd)" /venv/bin/python -c "import harness.synth, harness.tlc, harness.report; print('harness imports ok')" || rc=1
+# binding self-test: recorded real runs are accepted, the same runs with one corrupted field are rejected
+PYTHONPATH="$(pwd)" /venv/bin/python selftest/binding.py || rc=1
 exit $rc
